@@ -1066,10 +1066,22 @@ class JsonMixin:
     def host_function(self, name, args, e):
         if name == 'json.loads' and len(args) == 1 and isinstance(args[0], str):
             import json as _json
+            kw = dict(getattr(self, '_kwargs', None) or {})
+            self._kwargs = {}
+            hooks = {}
+            for k, fn in kw.items():
+                if k in ('parse_int', 'parse_float', 'parse_constant') and fn is not None:
+                    hooks[k] = (lambda f: (lambda text: self.apply(f, [text], e)))(fn)
+                elif k in ('object_hook',) and fn is not None:
+                    hooks[k] = (lambda f: (lambda d: self.apply(f, [_abs(d) if not isinstance(d, ADict) else d], e)))(fn)
+                elif fn is not None:
+                    raise Unrecognised(self.rule, f'json.loads called with the keyword {k}, which has no host model', self.mod.rel)
             try:
-                return _abs(_json.loads(args[0]))
+                return _abs(_json.loads(args[0], **hooks))
             except ValueError as exc:
                 raise RaiseSig('ValueError', (str(exc)[:60],), e)
+            except RecursionError:
+                raise RaiseSig('RecursionError', ('json nesting',), e)
         if name == 'json.JSONEncoder':
             return Sym('instance', 'json.JSONEncoder', tuple(args), tuple(sorted((getattr(self, '_kwargs', None) or {}).items(), key=lambda kv: kv[0])))
         if name == 'json.dumps' and args:
@@ -1098,6 +1110,7 @@ def _is_json_value(v):
 
 def json_samples(tier='quick'):
     strings = ['', 'a', '1.0', '1.0,', 'x.0]', '.0}', '0.0 ', 'a\n', '\n', 'a\nb', 'tab\there', 'q"uote', 'back\\slash', 'end\\', '"', '\\"', '\\\\', '1.0,\n', '1.0,\\', ',]', ',}', ', ]', 'a,]b',
+               '",]', '",}', 'a\\",]', 'x",] y', '"],[', '\\",}',
                '/', '</script>', '\x00\x1f', '\x7f', 'é', '\u2028', '\U0001F600', ' ', '{"a":1.0}', '[1.0, 2.0]', 'C:\\tmp\\']
     if tier == 'thorough':
         import itertools as _it
@@ -1167,6 +1180,29 @@ def run_json_roundtrip(repo, libfuncs, tier='quick', rule='E6l'):
                 problems.append(('parse', f'jsonParse({text!r}) raises {got2[1]}{tuple(got2[2])!r}'))
             elif not _json_equal(reify(got2[1]), v):
                 problems.append(('parse', f'jsonParse({desc}) gives {reify(got2[1])!r}, not the value'))
+    # the same container reachable twice (no cycle): serialised at every occurrence
+    def shared():
+        p = ADict({'a': 1.0, 'b': AList([2.0])})
+        q = AList([1.0, 'x'])
+        return [(AList([p, p]), [{'a': 1.0, 'b': [2.0]}] * 2), (ADict({'x': q, 'y': q, 'z': AList([q, q])}), {'x': [1.0, 'x'], 'y': [1.0, 'x'], 'z': [[1.0, 'x'], [1.0, 'x']]}),
+                (AList([q, AList([q]), ADict({'k': q})]), [[1.0, 'x'], [[1.0, 'x']], {'k': [1.0, 'x']}])]
+    for indent in (None, 2):
+        for av, pv in shared():
+            n += 1
+            got = it.run(st.func, [AList([av] + ([indent] if indent is not None else [])), ADict({})])
+            desc = f'jsonStringify of a value in which one container occurs several times ({pv!r})'
+            if got[0] == 'raise':
+                problems.append(('raise', f'{desc} raises {got[1]}{tuple(got[2])!r}'))
+                continue
+            if not isinstance(got[1], str):
+                raise Unrecognised(rule, f'{desc} evaluates to {got[1]!r}', st.mod.rel)
+            try:
+                back = _json.loads(got[1])
+            except ValueError:
+                problems.append(('invalid', f'{desc} gives {got[1]!r}, which is not valid JSON'))
+                continue
+            if not _json_equal(back, pv):
+                problems.append(('altered', f'{desc} gives {got[1]!r}, which denotes {back!r}'))
     return n, problems
 
 
